@@ -116,6 +116,10 @@ func (valdec mapDecoder) decodeListAsMap(dec *Decoder, p interface{}, tag byte) 
 	vp := valdec.vt.UnsafeNew()
 	vt := valdec.vt.Type1()
 	for i := 0; i < count; i++ {
+		if i > 0 {
+			// a fresh slot per entry: decoders fill pointers, slices and structs in place
+			vp = valdec.vt.UnsafeNew()
+		}
 		valdec.convertKey(i, kp)
 		valdec.decodeValue(dec, vt, vp)
 		valdec.t.UnsafeSetIndex(mp, kp, vp)
@@ -133,6 +137,11 @@ func (valdec mapDecoder) decodeMap(dec *Decoder, p interface{}) {
 	kt := valdec.kt.Type1()
 	vt := valdec.vt.Type1()
 	for i := 0; i < count; i++ {
+		if i > 0 {
+			// fresh slots per entry: decoders fill pointers, slices and structs in place
+			kp = valdec.kt.UnsafeNew()
+			vp = valdec.vt.UnsafeNew()
+		}
 		valdec.decodeKey(dec, kt, kp)
 		valdec.decodeValue(dec, vt, vp)
 		valdec.t.UnsafeSetIndex(mp, kp, vp)
